@@ -937,7 +937,14 @@ impl Instructions<Code, Temporary, Immediate> for Backend {
         match temporary {
             Temporary::Register(register) => instructions.push(Code::MOVI(register, immediate)),
             Temporary::Spill(position) => {
-                instructions.push(Code::MOVIM(STACK, stack_offset(position), immediate));
+                // `mov qword [m], imm` only exists with a sign-extended 32-bit immediate, so wider
+                // immediates have to go through the scratch register
+                if immediate.val >= i64::from(i32::MIN) && immediate.val <= i64::from(i32::MAX) {
+                    instructions.push(Code::MOVIM(STACK, stack_offset(position), immediate));
+                } else {
+                    instructions.push(Code::MOVI(TEMP, immediate));
+                    instructions.push(Code::MOVS(TEMP, STACK, stack_offset(position)));
+                }
             }
         }
     }
